@@ -3,6 +3,8 @@
 DUTs (built once per worker, `Simulator.reset()` per case):
   "full"    USBDevice(bus=UTMIInterface()) + standard control endpoint, bulk IN ep1, bulk OUT ep2,
             signal IN ep3 (16 bit), bulk IN ep4 + bulk OUT ep4 (same number, both directions); max packet 8.
+  "wide"    same construction with bulk IN+OUT ep1, bulk IN+OUT ep9 (endpoint numbers that differ only in bit 3
+            of the 4-bit endpoint number) and signal IN ep3; max packet 8.
   "serial"  luna.full_devices.USBSerialDevice(bus=UTMIInterface())  (status IN ep3, data IN/OUT ep4, max packet 64)
 
 A bare UTMI bus makes the device full-speed only with the "12 MHz" timer table (response 2 cycles after the
@@ -33,13 +35,22 @@ from lunaverif.ref import g9_device_model as M
 from lunaverif.simkit import CycleHarness
 
 RESPONSE_WINDOW = 18          # cycles (= FS bit times on this bus) the host waits for a response to start
+MAX_TAIL = 6                  # cycles (bit times) a PHY may keep rx_active high after the last byte of a packet: an
+                              # optional stuffed bit + a hub's dribble bit + 2 bit times of SE0 + the J that completes
+                              # the EOP + one cycle of output register (ULPI 1.1 table 7: FS "RX end delay" 17-18 clocks
+                              # of 60 MHz = 3.6 bit times after the start of the EOP).  The in-tree GatewarePHY ends
+                              # rx_active on the first SE0 bit: 0..1 cycles (measured); UTMITranslator follows the PHY.
 J_STATE, SE0 = 0b01, 0b00
 
 FULL_MPS = 8
 
 
 # ---------------------------------------------------------------------------------------------- descriptors
-def full_descriptor_collection():
+FULL_LAYOUT = dict(ins={"ep1": 1, "ep4i": 4}, outs={"ep2": 2, "ep4o": 4}, sig=3)
+WIDE_LAYOUT = dict(ins={"ep1i": 1, "ep9i": 9}, outs={"ep1o": 1, "ep9o": 9}, sig=3)
+
+
+def full_descriptor_collection(layout=FULL_LAYOUT):
     from usb_protocol.emitters import DeviceDescriptorCollection
     d = DeviceDescriptorCollection()
     with d.DeviceDescriptor() as dd:
@@ -52,12 +63,14 @@ def full_descriptor_collection():
     with d.ConfigurationDescriptor() as c:
         with c.InterfaceDescriptor() as i:
             i.bInterfaceNumber = 0
-            for addr in (0x81, 0x02, 0x84, 0x04):
+            addrs = sorted([(n, 0x80 | n) for n in layout["ins"].values()] + [(n, n) for n in layout["outs"].values()],
+                           key=lambda a: (a[0], -a[1]))
+            for _, addr in addrs:
                 with i.EndpointDescriptor() as e:
                     e.bEndpointAddress = addr
                     e.wMaxPacketSize = FULL_MPS
             with i.EndpointDescriptor() as e:
-                e.bEndpointAddress = 0x83
+                e.bEndpointAddress = 0x80 | layout["sig"]
                 e.bmAttributes = 0x03
                 e.wMaxPacketSize = FULL_MPS
                 e.bInterval = 10
@@ -164,16 +177,17 @@ class _Wrapped(Elaboratable):
 
 
 class FullDevice(_Wrapped):
-    def __init__(self):
+    def __init__(self, layout=FULL_LAYOUT):
         super().__init__()
-        self.collection = full_descriptor_collection()
+        self.layout_eps = layout
+        self.collection = full_descriptor_collection(layout)
         # pre-create port signals (elaborate fills the logic)
         self._m = None
         self.sig = Signal(16, name="status_signal")
-        for n in ("ep1", "ep4i"):
+        for n in layout["ins"]:
             self.in_streams[n] = (Signal(name=n + "_valid"), Signal(8, name=n + "_payload"), Signal(name=n + "_last"),
                                   Signal(name=n + "_ready"))
-        for n in ("ep2", "ep4o"):
+        for n in layout["outs"]:
             self.out_streams[n] = (Signal(name=n + "_ready"), Signal(11, name=n + "_out"))
 
     def elaborate(self, platform):
@@ -183,19 +197,21 @@ class FullDevice(_Wrapped):
         m = Module()
         m.submodules.usb = usb = USBDevice(bus=self.utmi)
         usb.add_standard_control_endpoint(self.collection)
-        ep1 = USBStreamInEndpoint(endpoint_number=1, max_packet_size=FULL_MPS)
-        ep2 = USBStreamOutEndpoint(endpoint_number=2, max_packet_size=FULL_MPS)
-        ep3 = USBSignalInEndpoint(width=16, endpoint_number=3)
-        ep4i = USBStreamInEndpoint(endpoint_number=4, max_packet_size=FULL_MPS)
-        ep4o = USBStreamOutEndpoint(endpoint_number=4, max_packet_size=FULL_MPS)
-        for ep in (ep1, ep2, ep3, ep4i, ep4o):
+        lay = self.layout_eps
+        ins = [(n, USBStreamInEndpoint(endpoint_number=e, max_packet_size=FULL_MPS)) for n, e in lay["ins"].items()]
+        outs = [(n, USBStreamOutEndpoint(endpoint_number=e, max_packet_size=FULL_MPS)) for n, e in lay["outs"].items()]
+        ep3 = USBSignalInEndpoint(width=16, endpoint_number=lay["sig"])
+        # added in the order of the original "full" rig: by number, IN side first (ep1 IN, ep2 OUT, ep3, ep4 IN, ep4 OUT)
+        order = sorted([(lay["ins"][n], 0, e) for n, e in ins] + [(lay["outs"][n], 1, e) for n, e in outs]
+                       + [(lay["sig"], 0, ep3)], key=lambda x: x[:2])
+        for _, _, ep in order:
             usb.add_endpoint(ep)
         m.d.comb += [usb.connect.eq(self.connect), ep3.signal.eq(self.sig)]
-        for n, ep in (("ep1", ep1), ("ep4i", ep4i)):
+        for n, ep in ins:
             v, p, l, r = self.in_streams[n]
             s = ep.stream
             m.d.comb += [s.valid.eq(v), s.payload.eq(p), s.last.eq(l), s.first.eq(0), r.eq(s.ready)]
-        for n, ep in (("ep2", ep2), ("ep4o", ep4o)):
+        for n, ep in outs:
             rdy, packed = self.out_streams[n]
             s = ep.stream
             m.d.comb += [s.ready.eq(rdy), packed.eq(Cat(s.valid, s.first, s.last, s.payload))]
@@ -236,6 +252,12 @@ class Rig:
             self.out_ports = {2: "ep2", 4: "ep4o"}
             self.descriptors = descriptor_table(self.dut.collection)
             self.acm = False
+        elif kind == "wide":
+            self.dut = FullDevice(WIDE_LAYOUT)
+            self.in_ports = {e: n for n, e in WIDE_LAYOUT["ins"].items()}
+            self.out_ports = {e: n for n, e in WIDE_LAYOUT["outs"].items()}
+            self.descriptors = descriptor_table(self.dut.collection)
+            self.acm = False
         elif kind == "serial":
             self.dut = SerialDevice()
             self.in_ports = {4: "tx"}
@@ -253,6 +275,9 @@ class Rig:
         if self.kind == "full":
             eps = {(1, "in"): M.StreamIn(FULL_MPS), (2, "out"): M.StreamOut(FULL_MPS), (3, "in"): M.SignalIn(2),
                    (4, "in"): M.StreamIn(FULL_MPS), (4, "out"): M.StreamOut(FULL_MPS)}
+        elif self.kind == "wide":
+            eps = {(1, "in"): M.StreamIn(FULL_MPS), (1, "out"): M.StreamOut(FULL_MPS), (3, "in"): M.SignalIn(2),
+                   (9, "in"): M.StreamIn(FULL_MPS), (9, "out"): M.StreamOut(FULL_MPS)}
         else:
             eps = {(3, "in"): M.StreamIn(64), (4, "in"): M.StreamIn(64), (4, "out"): M.StreamOut(64)}
         return M.DeviceModel(self.descriptors, eps, acm=self.acm)
@@ -289,8 +314,13 @@ class Run:
 
 class HostBFM:
     def __init__(self, rig_, program, tm=(0,), txr=(1,), in_valid=(1,), out_ready=(1,), judge=True,
-                 keep=None, durations=None, drain=40):
+                 keep=None, durations=None, drain=40, tails=None):
         self.rig = rig_
+        # tails: None = the historic behaviour (rx_active stays high 0..2 cycles after a packet's last byte, taken
+        # from `tm`); a non-empty list = cycles rx_active stays high after the last byte, chosen per packet with the
+        # same (op index, use count) indexing as the `tm` values (a PHY that negates RXActive only once it has seen
+        # the whole EOP).  MAX_TAIL is the longest a caller should ask for on this 1-cycle-per-bit bus.
+        self.tails = [min(max(int(x), 0), MAX_TAIL) for x in tails] if tails else None
         self.model = rig_.new_model()
         self.program = program
         self.tm = list(tm) or [0]
@@ -406,7 +436,11 @@ class HostBFM:
                 for _ in range(self._tv() % 9):
                     o = yield {"rx_active": 1, "rx_valid": 0}
                     self._no_tx(o)
-        for _ in range(self._tv() % 3):
+        k = self._op_index * 5 + self._tm_k
+        tail = self._tv() % 3                   # always drawn, so that the other timing values do not depend on `tails`
+        if self.tails is not None:
+            tail = self.tails[k % len(self.tails)]
+        for _ in range(tail):
             o = yield {"rx_active": 1, "rx_valid": 0}
             self._no_tx(o)
         return self.t
@@ -606,11 +640,11 @@ class HostBFM:
 
 
 def execute(kind, program, tm=(0,), txr=(1,), in_valid=(1,), out_ready=(1,), judge=True, keep=None,
-            durations=None, max_cycles=60000):
+            durations=None, max_cycles=60000, tails=None):
     """Run one program on the (cached) rig of the given kind; returns a Run."""
     r = rig(kind)
     bfm = HostBFM(r, program, tm=tm, txr=txr, in_valid=in_valid, out_ready=out_ready, judge=judge, keep=keep,
-                  durations=durations)
+                  durations=durations, tails=tails)
     r.harness.run_driver(bfm, max_cycles)
     run = bfm.run
     if run.cycles == 0:
